@@ -631,6 +631,19 @@ pub fn h_c03_bytes() {
         v.push(b);
         s.push(b as char);
     }
+    // (sharding aid only: the three classes of the first byte partition the inputs)
+    let cls = sym::choose("cls", 3);
+    if n == 0 {
+        sym::assume(cls == 0);
+    } else {
+        let b0 = v[0];
+        let ws = (b0 == b' ') | (b0 == b'\t') | (b0 == b'\n') | (b0 == b'\r');
+        match cls {
+            0 => sym::assume(b0 == b'<'),
+            1 => sym::assume(ws),
+            _ => sym::assume((b0 != b'<') & !ws),
+        }
+    }
     let r = xot.parse_bytes(&v);
     sym::emit_u64("accepted", r.is_ok() as u64);
     sym::cover("returned");
